@@ -247,6 +247,9 @@ func RunC09cScenario(sc *Scenario) (vd *Verdict) {
 	for k, v := range s.Stats {
 		stats[k] = v
 	}
+	// how often the scheduler found a released goroutine blocked outside the hooks is a diagnostic of the harness; with
+	// lease timers that are cancelled while the run ends it depends on which of two ready channels a select picks
+	delete(stats, "wild_blocks")
 	stats["steps"] = int64(s.Steps)
 	stats["commits"] = int64(len(commits))
 	defer func() {
